@@ -25,6 +25,14 @@ def make(TaskPool):
             """Evaluated Optional[X] / X | None annotations (defect D14): converted like X."""
             return f"maybe {n!r} {ratio!r} {tag!r} {getattr(end_callback, '__name__', end_callback)!r} {args!r}"
 
+        def grow(self, delta: int, /, step: int = 1) -> str:
+            """A positional-only parameter."""
+            return f"grow {delta!r} {step!r}"
+
+        def fmt(self, pattern: str = "%d of %d (100%)", width: int = 10) -> str:
+            """A default value that contains percent signs."""
+            return f"fmt {pattern!r} {width!r}"
+
         def half(self, n: int = 1) -> str:
             """Runs at 50% of the speed - a percent sign in a docstring (defect D13), also %s and %(x)d."""
             return f"half {n!r}"
